@@ -245,33 +245,45 @@ def d8(ctx, prog):
     from . import dims
     from .. import units, kernels as _k
     base = prog.need_class(PART, 'PartitionedDistinguisherMixin')
-    k1 = prog.resolve_method(base, '_accumulate_core_1')
     acc = prog.resolve_method(base, '_accumulate')
     n = 0
-    key = f'{base.key}::accumulator dimensions'
-    if k1 is None or acc is None:
-        ctx.undecided('C04-D8', key, 'accumulation kernel not found', base.mod.relpath)
+    if acc is None:
+        ctx.undecided('C04-D8', f'{base.key}::accumulator dimensions', 'accumulation function not found', base.mod.relpath)
         return 0
-    tp = k1.params[0]
-    seeds = {tp: dims.U(u=1), k1.params[1]: units.CONST}
-    seeds.update({p_: units.CONST for p_ in k1.params if 'prec' in p_})
-    contrib, xk = dims.contributions(prog, k1, seeds, {tp})
-    dims.report_mismatches(ctx, 'C04-D8', k1, xk)
+    # every kernel the accumulation can dispatch to (direct calls and dispatch candidates)
+    knames = []
+    for var_, names_, node_, calls_ in _k.dispatch_sites(prog, acc):
+        knames.extend(names_)
+    for c in ast.walk(acc.node):
+        if isinstance(c, ast.Call) and isinstance(c.func, ast.Attribute) and norm(c.func.value) == 'self' and c.func.attr.startswith('_accumulate_core'):
+            knames.append(c.func.attr)
     want_acc = {'counters': dims.U(n=1), 'sum': dims.U(u=1, n=1), 'sum_square': dims.U(u=2, n=1)}
-    calls = [c for c in ast.walk(acc.node) if isinstance(c, ast.Call) and isinstance(c.func, ast.Attribute) and c.func.attr == k1.name]
-    amap = _k.call_arg_map(k1, calls[0]) if calls else {}
-    got = {}
-    for p_, dm in contrib.items():
-        a = amap.get(p_)
-        if a is not None and self_attr(a):
-            got[self_attr(a)] = dm
-    for a, w in want_acc.items():
-        n += 1
-        if a not in got or got[a] is units.TOP:
-            ctx.undecided('C04-D8', f'{key} self.{a}', f'dimension of self.{a} not derivable from {k1.qualname}', k1.where())
-        else:
-            ctx.check(got[a] == w, 'C04-D8', f'{key} self.{a}', f'{k1.qualname} accumulates {units.show(got[a])} into self.{a}; the class {"count" if a == "counters" else "sum"} has dimension {units.show(w)}',
-                      f'self.{a}: {units.show(w)}', k1.where())
+    for kn in sorted(set(knames)):
+        k1 = prog.resolve_method(base, kn)
+        if k1 is None:
+            continue
+        key = f'{k1.key}::accumulator dimensions'
+        tp = k1.params[0]
+        seeds = {tp: dims.U(u=1), k1.params[1]: units.CONST}
+        seeds.update({p_: units.CONST for p_ in k1.params if 'prec' in p_})
+        contrib, xk = dims.contributions(prog, k1, seeds, {tp, k1.params[1]})
+        dims.report_mismatches(ctx, 'C04-D8', k1, xk)
+        # parameter -> accumulator attribute, from a direct call or from the (common) dispatched call
+        calls = [c for c in ast.walk(acc.node) if isinstance(c, ast.Call) and ((isinstance(c.func, ast.Attribute) and c.func.attr == k1.name) or
+                                                                               any(isinstance(c.func, ast.Name) and c.func.id == v_ for v_, nm_, nd_, cs_ in _k.dispatch_sites(prog, acc)))]
+        amap = _k.call_arg_map(k1, calls[0]) if calls else {}
+        got = {}
+        for p_, dm in contrib.items():
+            a = amap.get(p_)
+            if a is not None and self_attr(a):
+                got[self_attr(a)] = dm
+        for a, w in want_acc.items():
+            n += 1
+            if a not in got or got[a] is units.TOP:
+                ctx.undecided('C04-D8', f'{key} self.{a}', f'dimension of self.{a} not derivable from {k1.qualname}', k1.where())
+            else:
+                ctx.check(got[a] == w, 'C04-D8', f'{key} self.{a}', f'{k1.qualname} accumulates {units.show(got[a])} into self.{a}; the class {"count" if a == "counters" else "sum"} has dimension {units.show(w)}',
+                          f'self.{a}: {units.show(w)}', k1.where())
     expect = {'ANOVADistinguisherMixin': (dims.U(n=1), 'the F statistic (scale free, grows like the number of traces)'),
               'NICVDistinguisherMixin': ({}, 'a ratio of variances (dimensionless, independent of the number of traces)'),
               'SNRDistinguisherMixin': ({}, 'a ratio of variances (dimensionless, independent of the number of traces)')}
@@ -421,6 +433,18 @@ def run(ctx, prog):
                 ctx.ok('C04-D9', f'{f_.key}::precision `{prec_}`', 'no arithmetic on raw inputs')
             _emit(ctx, 'C04-D9', res_)
     ctx.floor('partitioned accumulation kernels under precision discipline', n9, 2)
+    ctx.rule('C04-D11', 'class counters receive one increment per (trace, word) - literal 1 under a `sample == 0` pin, or an equality-mask sum - and class membership is decided by equality of the lookup output with the class position')
+    from .. import lut as _lut
+    _lk = _lut.Lookup(prog)
+    n11 = 0
+    for f_, kind_, call_ in _kern.numba_funcs(prog):
+        if f_.mod.name != PART or kind_ != 'njit' or not f_.name.startswith('_accumulate_core'):
+            continue
+        cps = [p_ for p_ in f_.params if 'counter' in p_]
+        res_ = _kr.count_discipline(prog, f_, cps) + _kr.membership_comparisons(prog, f_, _lk.maybe_params(f_)) + _kr.sentinel_discipline(prog, f_, _lk.maybe_params(f_))[0]
+        n11 += len(res_)
+        _emit(ctx, 'C04-D11', res_)
+    ctx.floor('counter increments / membership comparisons judged', n11, 3)
     ctx.rule('C04-D10', 'rational-function normal form: each metric is its definition (F statistic / weighted variance of class means over total variance / equal-weight signal over mean noise) as a function of the class counts, sums and sums of squares')
     ctx.floor('metrics compared with their definition', d10(ctx, prog), 3)
     n3 = infnan_rule(ctx, prog, 'C04-D3', {PART})
